@@ -257,7 +257,11 @@ func vsimCropRun(r *sim.Run, c08 bool) {
 		err = cropMP4(fe, durMS, sink2, bytes.NewReader(img))
 	}()
 	if err != nil {
-		r.Violate("c08c-crop-differs", "cropping the fully decoded file failed (%v) where cropping the lazily decoded one succeeded", err)
+		// the tool itself never crops a fully decoded file; the in-memory CopyData rejects an EMPTY range that starts at
+		// the end of the payload (an all-empty chunk placed last), which is not a "valid range" in the statement's
+		// sense: no claim (valid ranges are compared directly in the library world)
+		r.Probe("crop-from-memory-failed(no claim)")
+		r.Logf("cropping the fully decoded file failed: %v", err)
 		return
 	}
 	if !bytes.Equal(sink.Buf, sink2.Buf) {
